@@ -753,9 +753,39 @@ static void tall_tree(Ctx &c, EnumStats &st, bool descending) {
     st.samples.push_back(strf("tall tree: %s load of %ld keys, validity/height/count checked at 7 sizes during the load, after replacements, after removing ~1/7 of the keys, after re-insertion", descending ? "descending" : "ascending", N));
 }
 
+// C04, thorough tier: nearest-key search on a tall tree.  A monotone load of 2.4 million keys gives search paths of 35 nodes
+// (descending) - depths no generated history comes near; every stored key is then probed exactly, and just above it (the
+// floor must be that key), plus probes below the minimum and above the maximum.
+static void tall_nearest(Ctx &c, EnumStats &st, bool descending) {
+    const long N = 2400000;
+    g_cmpkind = 0;
+    qtreetbl_t *t = qtreetbl(0);
+    if (!t) throw CaseStop{"ctor"};
+    struct G { qtreetbl_t *t; ~G() { qtreetbl_free(t); } } g{t};
+    auto keyof = [&](long i) { char b[16]; snprintf(b, sizeof b, "%07ld", i); return std::string(b); };
+    for (long i = 0; i < N; i++) {
+        std::string key = keyof(descending ? N - 1 - i : i);
+        if (!qtreetbl_putstr(t, key.c_str(), "v")) c.fail(FUNC, "tree:put-failed", "put of key %s (number %ld of a monotone load) failed", key.c_str(), i + 1);
+    }
+    auto probe = [&](const std::string &p, long want, const char *kind) {
+        c.trace = strf("tall tree (%s load of %ld keys): find_nearest(%s), %s", descending ? "descending" : "ascending", N, p.c_str(), kind);
+        errno = 0;
+        qtreetbl_obj_t o = qtreetbl_find_nearest(t, p.c_str(), p.size() + 1, false);
+        std::string w = keyof(want);
+        if (!o.name || o.namesize != w.size() + 1 || memcmp(o.name, w.c_str(), w.size() + 1) != 0)
+            c.fail(NEAR, "tree:nearest-wrong", "find_nearest(%s) among %ld keys (%s load) returned %s, the greatest key not above the probe is %s", p.c_str(), N, descending ? "descending" : "ascending", o.name ? hexs(o.name, o.namesize).c_str() : "NULL", w.c_str());
+        st.evaluations++; st.nontrivial++;
+    };
+    for (long k = 0; k < N; k++) { std::string key = keyof(k); probe(key, k, "exact hit"); probe(key + "5", k, "just above a stored key"); }
+    probe("/", 0, "below the minimum: the smallest key");
+    probe("9999999z", N - 1, "above the maximum");
+    st.samples.push_back(strf("tall tree: %s load of %ld keys, find_nearest of every key and of a probe just above every key", descending ? "descending" : "ascending", N));
+}
+
 bool vf_enumerate(Ctx &c, EnumStats &st) {
     int shard = 0, nshards = 1;
     if (const char *e = getenv("VF_ENUM_SHARD")) sscanf(e, "%d/%d", &shard, &nshards);
+    if (c.mode == "C04") { if (c.tier && shard < 2) tall_nearest(c, st, shard == 0); return true; }
     if (c.tier && c.mode == "C02" && (shard == 0 || shard == 1)) tall_tree(c, st, shard == 0);
     int K = c.tier ? 11 : 9;
     int variant = shard % 5;
